@@ -56,6 +56,10 @@ def make_tensor(call: dict[str, Any], cid: int, rank: int) -> torch.Tensor:
         else:
             v = (rank + 1) * 4096 + (idx * 13 + cid * 37) % 4096
         t = v.to(dt).reshape(shape)
+    if call['dtype'] == 'float64':
+        # values float32 cannot represent (odd integers above 2**24): a
+        # detour through a narrower dtype anywhere on the path shows
+        t = t + float(2 ** 33 + 1) * (rank + 1) + float(2 ** 25)
     if call.get('noncontig') and t.dim() == 2:
         # same values, non-contiguous memory
         t = t.t().contiguous().t()
